@@ -95,7 +95,7 @@ func cmdSelftest(args []string) {
 	}
 	for _, ord := range orders {
 		ctx, cancel := context.WithTimeout(context.Background(), 20*time.Minute)
-		cmd := exec.CommandContext(ctx, "go", append([]string{"test", "-vet=off", "-count=1"}, pkgs...)...)
+		cmd := exec.CommandContext(ctx, "go", append([]string{"test", "-trimpath", "-vet=off", "-count=1"}, pkgs...)...)
 		cmd.Dir = sim.s.Gleece
 		cmd.Env = append(os.Environ(), "VERIF_ORDER="+ord)
 		out, err := cmd.CombinedOutput()
